@@ -1,8 +1,8 @@
 (* Proofs for C18: the regenerated kernel Gen/FromFunction.v (fromFunction as the source says
    it now) meets Spec/Signature.v on CPython's layout of every valid signature. *)
-From Coq Require Import List ZArith Bool Arith Lia.
+From Coq Require Import List ZArith Bool Arith Lia NArith.
 Import ListNotations.
-From ZI Require Import Model.PyFunc Spec.Signature Gen.FromFunction Model.FromFunctionPrefix.
+From ZI Require Import Lib.Str Model.PyFunc Spec.Signature Gen.FromFunction Model.FromFunctionPrefix.
 
 Lemma norm_bound_nat n i : norm_bound n (Z.of_nat i) = Nat.min i n.
 Proof.
@@ -314,4 +314,132 @@ Proof.
   intros s locals fd iml0 Hv Hfd. unfold fromMethod.
   change (with_imlevel 1 (layout s locals fd iml0)) with (layout s locals fd 1).
   rewrite fromFunction_correct; auto.
+Qed.
+
+(* ======================================================================= generated = model
+   The further regenerated definitions of Gen/FromFunction.v (Method.getSignatureInfo /
+   getSignatureString, Element's tagged-value accessors, ABCInterfaceClass.__method_from_function)
+   equal the hand-written Model/PyFunc.v definitions the property theorems and the Spec oracle use. *)
+Lemma generated_abc_eq co :
+  abc_method_from_function co
+  = fromFunction (with_imlevel (if Nat.eqb (co_argcount co) 0 then 0 else 1) co).
+Proof.
+  unfold abc_method_from_function. destruct (co_argcount co); reflexivity.
+Qed.
+
+Lemma info_eq m : getSignatureInfo m = (m_positional m, m_required m, m_optional m, m_varargs m, m_kwargs m).
+Proof. reflexivity. Qed.
+
+(* --- tagged *)
+Definition tv_of (d : list (name * dflt)) : tvstate :=
+  fold_left (fun tv kv => setTaggedValue tv (fst kv) (snd kv)) d tv_init.
+
+Lemma set_fold d : forall tv,
+  fold_left (fun tv kv => setTaggedValue tv (fst kv) (snd kv)) d tv
+  = match d with [] => tv | _ => Some (dict_update (tv_dict tv) d) end.
+Proof.
+  induction d as [|kv d IH]; intros tv; [reflexivity|].
+  cbn [fold_left]. rewrite IH. unfold setTaggedValue, dict_update. cbn [fold_left].
+  destruct tv as [x|]; cbn [tv_is_none tv_dict]; destruct d; reflexivity.
+Qed.
+
+Lemma dict_set_nonempty {V} (d : list (name * V)) k v : dict_set d k v <> [].
+Proof. destruct d as [|[k' v'] d]; cbn; [discriminate|]. destruct (Nat.eqb k k'); discriminate. Qed.
+
+Lemma dict_update_nonempty {V} (e d : list (name * V)) : d <> [] -> dict_update d e <> [].
+Proof.
+  unfold dict_update. revert d. induction e as [|kv e IH]; intros d H; cbn; auto.
+  apply IH. apply dict_set_nonempty.
+Qed.
+
+Lemma tagged_eq d none t :
+  let d' := dict_update [] d in
+  [code_get (getTaggedValue (tv_of d) t); code_get (getDirectTaggedValue (tv_of d) t);
+   code_query none (queryTaggedValue (tv_of d) t queryTaggedValue_default);
+   code_query none (queryDirectTaggedValue (tv_of d) t queryTaggedValue_default);
+   code_query_d (queryTaggedValue (tv_of d) t VSentinel);
+   code_query_d (queryDirectTaggedValue (tv_of d) t VSentinel)] = tag_reads d' none t
+  /\ getTaggedValueTags (tv_of d) = map fst d' /\ getDirectTaggedValueTags (tv_of d) = map fst d'
+  /\ tv_dict (tv_of d) = d'.
+Proof.
+  intros d'. unfold tv_of. rewrite set_fold. unfold tv_init. cbn [tv_dict].
+  unfold getDirectTaggedValue, queryDirectTaggedValue, getDirectTaggedValueTags.
+  destruct d as [|kv d].
+  - subst d'. cbn. auto.
+  - fold d'. assert (N : d' <> []).
+    { unfold d', dict_update. cbn [fold_left]. apply dict_update_nonempty. apply dict_set_nonempty. }
+    destruct d' as [|p l]; [congruence|].
+    unfold getTaggedValue, queryTaggedValue, getTaggedValueTags, tag_reads, py_getitem, dict_getd, queryTaggedValue_default.
+    cbn [tv_truth tv_dict negb].
+    destruct (dict_get (p :: l) t); cbn; auto.
+Qed.
+
+(* --- getSignatureString *)
+Lemma last_iadd_snoc (acc : list pstr) a x : py_last_iadd (acc ++ [a]) x = acc ++ [a ++ x].
+Proof.
+  induction acc as [|b acc IH]; [reflexivity|].
+  cbn [app]. destruct acc as [|c acc]; cbn [app py_last_iadd] in *; [reflexivity|].
+  f_equal. exact IH.
+Qed.
+
+Definition gen_item (O : list (name * dflt)) (v : name) : pstr :=
+  match dict_get O v with Some d => [PName v; PLit [61%N]; PRepr d] | None => [PName v] end.
+
+Lemma text_app names reprs a b : pstr_text names reprs (a ++ b) = pstr_text names reprs a ++ pstr_text names reprs b.
+Proof. apply flat_map_app. Qed.
+
+Lemma join_text names reprs (L : list pstr) :
+  pstr_text names reprs (py_join [PLit [44%N; 32%N]] L) = join_comma (map (pstr_text names reprs) L).
+Proof.
+  induction L as [|x L IH]; [reflexivity|].
+  destruct L as [|y L]; [reflexivity|].
+  change (py_join [PLit [44%N; 32%N]] (x :: y :: L)) with (x ++ [PLit [44%N; 32%N]] ++ py_join [PLit [44%N; 32%N]] (y :: L)).
+  rewrite !text_app, IH. reflexivity.
+Qed.
+
+Lemma signature_string_eq names reprs m :
+  pstr_text names reprs (getSignatureString_gen m) = sig_text names reprs (getSignatureString m).
+Proof.
+  unfold getSignatureString_gen. cbv zeta.
+  assert (F : forall P acc,
+    fold_left (fun (v_sig : list pstr) (v_v : name) =>
+       if dict_has (m_optional m) v_v
+       then py_last_iadd (v_sig ++ [[PName v_v]]) ([PLit [61%N]] ++ py_getitem_repr (m_optional m) v_v)
+       else v_sig ++ [[PName v_v]]) P acc = acc ++ map (gen_item (m_optional m)) P).
+  { induction P as [|v P IH]; intros acc; cbn [fold_left map]; [now rewrite app_nil_r|].
+    rewrite IH.
+    replace (if dict_has (m_optional m) v
+             then py_last_iadd (acc ++ [[PName v]]) ([PLit [61%N]] ++ py_getitem_repr (m_optional m) v)
+             else acc ++ [[PName v]]) with (acc ++ [gen_item (m_optional m) v]).
+    - now rewrite <- app_assoc.
+    - unfold dict_has, py_getitem_repr, gen_item. rewrite last_iadd_snoc.
+      destruct (dict_get (m_optional m) v); reflexivity. }
+  rewrite F. cbn [app]. clear F.
+  unfold py_format1, sig_text, getSignatureString. rewrite !text_app, join_text. cbn [pstr_text flat_map piece_text].
+  rewrite app_nil_r. f_equal. f_equal. f_equal.
+  assert (E : map (pstr_text names reprs) (map (gen_item (m_optional m)) (m_positional m))
+              = map (tok_text names reprs)
+                  (map (fun v : name => match dict_get (m_optional m) v with
+                                        | Some d => TNameDefault v d | None => TName v end) (m_positional m))).
+  { rewrite !map_map. apply map_ext. intros v. unfold gen_item.
+    destruct (dict_get (m_optional m) v); cbn; now rewrite ?app_nil_r. }
+  destruct (m_varargs m) as [a|], (m_kwargs m) as [k|]; cbn [oname_truth oname_pstr ostar ostarstar app];
+    rewrite ?app_nil_r, ?map_app, <- ?app_assoc;
+    first [exact E | f_equal; [exact E | cbn; now rewrite ?app_nil_r]].
+Qed.
+
+Lemma generated_abc_correct : forall (s : signature) (locals : list name) (fd : list (name * dflt)) (iml0 : nat),
+  valid s -> NoDup (map fst fd) ->
+  abc_method_from_function (layout s locals fd iml0)
+  = Ok (mkMethod (map fst (tl (positionals s))) (required_of (tl (positionals s)))
+                 (optional_of (tl (positionals s))) (vararg s) (varkw s) fd).
+Proof.
+  intros s locals fd iml0 Hv Hfd. rewrite generated_abc_eq.
+  change (co_argcount (layout s locals fd iml0)) with (length (posonly s) + length (pos s)).
+  rewrite <- app_length. fold (positionals s).
+  destruct (positionals s) as [|p P] eqn:E; cbn [length Nat.eqb].
+  - change (with_imlevel 0 (layout s locals fd iml0)) with (layout s locals fd 0).
+    rewrite fromFunction_correct; auto. unfold spec_info, visible. now rewrite E.
+  - change (with_imlevel 1 (layout s locals fd iml0)) with (layout s locals fd 1).
+    rewrite fromFunction_correct; auto. unfold spec_info, visible. now rewrite E.
 Qed.
